@@ -421,6 +421,14 @@ func TestC10(t *testing.T) {
 				spec.Users = append(spec.Users, sim.UserSpec{Znn: 9000, Qsr: 90000})
 			}
 		}
+		// genesis pillars may carry another collateral than the one a registration locks today (the genesis
+		// validator only requires the contract to hold the sum of the recorded amounts)
+		for i := range spec.Pillars {
+			if c.Weighted("c10.pillarAmount", 3, 1) == 1 {
+				spec.Pillars[i].Amount = []*big.Int{big.NewInt(10000 * sim.Zexp), big.NewInt(15000*sim.Zexp - 1), big.NewInt(20000 * sim.Zexp)}[c.Pick("c10.pillarAmountKind", 3)]
+				c.Class("genesis-pillar-with-other-collateral")
+			}
+		}
 		// some genesis pillars pay their rewards to another account than their owner's
 		for i := range spec.Pillars {
 			if c.Bool("c10.pillarRewardElsewhere") {
